@@ -500,3 +500,35 @@ def parsable_spec(t):
             return len(vals) == 5
         return False
     return len(vals) == 1
+
+
+# ---------------------------------------------------------------------------------------------
+# C19 / C02: control-sequence tokenisation, from the statement ("ESC [", parameter bytes, one final byte 0x40-0x7E;
+# restricted to the acceptable terminators when given, unterminated ones only when allowed).  Left-to-right: a
+# candidate that is not accepted is not a sequence, and scanning resumes at the next character (so a sequence that
+# begins inside a rejected candidate is still found - what a regular-expression search for the pattern finds).
+def csi_tokens(s, allow_unterminated, acceptable):
+    text = ''
+    seqs = []
+    i = 0
+    n = len(s)
+    while i < n:
+        taken = False
+        if s[i] == '\x1b' and i + 1 < n and s[i + 1] == '[':
+            j = i + 2
+            while j < n and not is_final_byte(s[j]):
+                j += 1
+            if j < n:
+                term = s[j]
+                end = j + 1
+            else:
+                term = ''
+                end = n
+            if (term != '' or allow_unterminated) and (acceptable is None or term in acceptable):
+                seqs.append((len(text), s[i + 2:j], term))
+                i = end
+                taken = True
+        if not taken:
+            text = text + s[i]
+            i += 1
+    return (text, seqs)
